@@ -216,7 +216,7 @@ def k_rep(include_big=False):
     for i, (props, size) in enumerate(headers):
         data, fields = refcodec.enc_header_frame(size, props, 1)
         out.append(('header:%d' % i, data, fields))
-    bodies = [b'\xce', b'AMQP\x00\x00\x09\x01', refcodec.HEARTBEAT, b'\x00',
+    bodies = [b'', b'\xce', b'AMQP\x00\x00\x09\x01', refcodec.HEARTBEAT, b'\x00',
               b'\x01\x00\x01\x00\x00\x00\x04\x00\x3c\x00\x50\xce',
               bytes(range(256))]
     for i, b in enumerate(bodies):
